@@ -264,6 +264,12 @@ for _p in ("C15", "C17", "C18"):
     PROPS[_p]["engines"] = PROPS[_p]["engines"] + [E5_OPT]
 for _p in ("C15", "C18"):
     PROPS[_p]["engines"] = PROPS[_p]["engines"] + [E1_TR]   # Stop + Restart of a node shuts its transport down and runs it again
+# the network assumption of the cluster models (a request is handled by the peer it was addressed to, the answer is
+# that peer's): checked on the bundled transport with one sender and three peers that share an IP address or a port
+NET_NOTE = " The cluster model's network assumption - a message reaches the peer it was addressed to, or nobody - is checked on the bundled transport (E1-transport: one sender, three peers on loopback sharing an IP address or a port); a failure counts against this check."
+for _p in ("C01", "C02", "C03", "C04", "C05", "C07", "C09", "C10", "C11", "C14", "C16", "C17"):
+    PROPS[_p]["engines"] = PROPS[_p]["engines"] + [E1_TR]
+    PROPS[_p]["explanation"] += NET_NOTE
 PROPS["C08"]["engines"] = PROPS["C08"]["engines"] + [E3_EL, E3_LD, E3_LC, E2_SS]
 PROPS["C08"]["explanation"] += " The candidate's own term bump and self-vote (election(), the sole-voter shortcut, vote replies), the leader's step-down and a restart are covered by E3-election, E3-leader and E3-lifecycle with the same oracle (what is in memory when the section returns is what the last write to the term/vote storage in that section said)." + STORAGE_NOTE
 PROPS["C11"]["engines"] = PROPS["C11"]["engines"] + [E3_AE, E2_LOG]
